@@ -54,6 +54,17 @@ CLAIMED['C11'] = ('other',
     'strict registry parser driven by the grammar extracted from numdb.py + consumer contracts extracted/anchored in the ASTs',
     'DESIGN.md section C11')
 
+CLAIMED['C03'] = ('other',
+    'Dependency (information-flow) rule over all 219 modules exposing compact(): while validate()\'s parameter holds the caller\'s '
+    'value, every read of it must be - transitively through resolved callees, delegates and dispatch tuples - the argument of a '
+    'compact() whose normal form (delete set, strip/case operations, ordered operations, prefix rules, constant-prefix wrapper) equals '
+    'that of the module\'s own compact(). When the rule holds validate(x) is a function of compact(x) by construction, for all pairs '
+    'of inputs at once; a read that bypasses compact() is reported at the expression that performs it.',
+    'Trusted: CPython ast; callee resolution of sa/strabs/model.py; the compact normal form treats strip() and upper() as commuting. '
+    'Not decided (listed in evidence): vatin and de.handelsregisternummer (sibling structure), formats excluded by the property.',
+    'information-flow (taint) rule on the raw parameter + normal-form comparison of compact() functions',
+    'DESIGN.md section C03')
+
 NOT_APPLICABLE = {
 }
 
